@@ -29,7 +29,11 @@ STAGES = {
 def prepare(ctx, nrng):
     """inputs with enough work for >= 3 workers in every stage"""
     base = ctx.tmpdir('stagefault_inputs_')
-    ref = stages.make_reference(nrng, base, n_class=2, max_sub=2, max_cl=3, cells_per=(5, 8), enc='csr')
+    # at least five leaf clusters (ten pairs), whatever the seed: every stage then starts several workers
+    while True:
+        ref = stages.make_reference(nrng, base, n_class=2, max_sub=2, max_cl=3, cells_per=(5, 8), enc='csr')
+        if len(ref['leaf_parents']) >= 5:
+            break
     (base / 'scratch').mkdir()
     stages.precompute(ref['path'], base / 'stats.h5', base / 'scratch', n_proc=3, rows_at_a_time=5)
     stages.ref_markers(base / 'stats.h5', base / 'refm.h5', base / 'scratch', n_proc=3)
